@@ -485,6 +485,14 @@ func c20Call(r *fw.Rec, rr *prng.R) {
 	r.Sample("call:"+want, map[string]any{"prog": prog, "extension": desc, "outcome": o.String(), "recorded_args": recorded})
 }
 
+type c20ErrStruct struct{ msg string }
+
+func (e c20ErrStruct) Error() string { return e.msg }
+
+type c20ErrPtr struct{ msg string }
+
+func (e *c20ErrPtr) Error() string { return e.msg }
+
 // ---- registration-time validation
 func c20Registration(r *fw.Rec, rr *prng.R) {
 	type rc struct {
@@ -492,15 +500,20 @@ func c20Registration(r *fw.Rec, rr *prng.R) {
 		fn   interface{}
 		ok   bool
 		what string
+		want string // expected outcome of $name(1): "" = only "no panic"
 	}
 	good := func(x float64) float64 { return x }
 	cases := []rc{
-		{"ok1", good, true, "valid"}, {"ok_2", func() (string, error) { return "", nil }, true, "valid two results"}, {"é1", good, true, "unicode letter name"}, {"_x", good, true, "underscore name"},
-		{"", good, false, "empty name"}, {"a b", good, false, "space in name"}, {"a-b", good, false, "dash in name"}, {"$x", good, false, "dollar in name"}, {"a.b", good, false, "dot in name"}, {"f(", good, false, "paren in name"},
-		{"nf", 42, false, "not a function"}, {"nf2", "str", false, "not a function"}, {"r0", func(x float64) {}, false, "no results"}, {"r3", func() (int, int, error) { return 0, 0, nil }, false, "three results"},
-		{"r2", func() (int, int) { return 0, 0 }, false, "second result not an error"}, {"optfirst", func(a jtypes.OptionalInt, b float64) int { return 0 }, false, "optional before mandatory"},
-		{"varopt", func(a ...jtypes.OptionalInt) int { return 0 }, false, "variadic optional"}, {"nilfn", nil, false, "nil func"},
-		{"optopt", func(a float64, b jtypes.OptionalInt, c jtypes.OptionalString) int { return 0 }, true, "trailing optionals"}, {"vari", func(a string, b ...float64) int { return 0 }, true, "variadic"},
+		{"ok1", good, true, "valid", ""}, {"ok_2", func() (string, error) { return "", nil }, true, "valid two results", ""}, {"é1", good, true, "unicode letter name", ""}, {"_x", good, true, "underscore name", ""},
+		{"errstruct", func(x float64) (float64, c20ErrStruct) { return x, c20ErrStruct{"boom"} }, true, "second result is a struct type implementing error (never nil)", "error:boom"},
+		{"errptrnil", func(x float64) (float64, *c20ErrPtr) { return x + 1, nil }, true, "second result is a pointer type implementing error, nil returned", "value:2"},
+		{"errptr", func(x float64) (float64, *c20ErrPtr) { return x, &c20ErrPtr{"bang"} }, true, "second result is a pointer type implementing error, non-nil returned", "error:bang"},
+		{"typednil", (func(float64) float64)(nil), false, "typed nil func", ""},
+		{"", good, false, "empty name", ""}, {"a b", good, false, "space in name", ""}, {"a-b", good, false, "dash in name", ""}, {"$x", good, false, "dollar in name", ""}, {"a.b", good, false, "dot in name", ""}, {"f(", good, false, "paren in name", ""},
+		{"nf", 42, false, "not a function", ""}, {"nf2", "str", false, "not a function", ""}, {"r0", func(x float64) {}, false, "no results", ""}, {"r3", func() (int, int, error) { return 0, 0, nil }, false, "three results", ""},
+		{"r2", func() (int, int) { return 0, 0 }, false, "second result not an error", ""}, {"optfirst", func(a jtypes.OptionalInt, b float64) int { return 0 }, false, "optional before mandatory", ""},
+		{"varopt", func(a ...jtypes.OptionalInt) int { return 0 }, false, "variadic optional", ""}, {"nilfn", nil, false, "nil func", ""},
+		{"optopt", func(a float64, b jtypes.OptionalInt, c jtypes.OptionalString) int { return 0 }, true, "trailing optionals", ""}, {"vari", func(a string, b ...float64) int { return 0 }, true, "variadic", ""},
 	}
 	c := cases[rr.Intn(len(cases))]
 	level := rr.Pick("expr", "package")
@@ -521,6 +534,33 @@ func c20Registration(r *fw.Rec, rr *prng.R) {
 			err = e.RegisterExts(map[string]jsonata.Extension{name: {Func: c.fn}})
 		}
 	})
+	// an accepted extension must be callable without panicking, and a non-nil
+	// error result (of whatever type) must become Eval's error
+	if c.ok && err == nil && pi == nil {
+		var callErr error
+		var out interface{}
+		pi = fw.Guard(func() {
+			e := jsonata.MustCompile("$" + name + "(1)")
+			if level == "expr" {
+				if err := e.RegisterExts(map[string]jsonata.Extension{name: {Func: c.fn}}); err != nil {
+					callErr = err
+					return
+				}
+			}
+			r.Evals(1)
+			out, callErr = e.Eval(nil)
+		})
+		if pi == nil && c.want != "" {
+			got := fmt.Sprintf("value:%v", out)
+			if callErr != nil {
+				got = "error:" + callErr.Error()
+			}
+			if got != c.want {
+				r.Violation("error-result", fmt.Sprintf("%s: $%s(1) gave %s, want %s", desc, name, got, c.want), nil)
+				return
+			}
+		}
+	}
 	r.Outcome(fmt.Sprintf("register-ok:%v", err == nil && pi == nil))
 	switch {
 	case pi != nil:
@@ -675,7 +715,7 @@ func init() {
 	fw.Register(&fw.Prop{
 		ID: "C20", Title: "Extensions: faithful argument passing, typed failures, registry visibility",
 		Rule: "cases: PRNG-generated (a) Go functions built with reflect.MakeFunc over parameter lists of length 0..4 drawn from float64, int, uint8, string, bool, []byte, interface{}, reflect.Value, []interface{}, map[string]interface{}, jtypes.Callable and the seven Optional* types, with variadic tails and one or two results (nil error / error / jtypes.ErrUndefined), registered on an Expr and called under a path with 0..5 arguments over 10 value kinds (number, fraction, Go int, string, boolean, array, object, function, missing, out-of-range for uint8), with every combination of UndefinedHandler (ArgUndefined(0)) and EvalContextHandler (ArgCountEquals(n)); the function records its arguments; " +
-			"(b) 20 registration cases: valid and invalid names and function shapes, on an Expr and at package level; (c) sequential histories of 6..16 steps mixing Compile, package-level and Expr-level RegisterVars/RegisterExts on three names and probes of every live Expr, judged against a sequential model (global map; each Expr = snapshot at Compile + its own registrations). " +
+			"(b) 24 registration cases: valid and invalid names and function shapes (incl. typed nil funcs and concrete error result types), on an Expr and at package level, each accepted one then called; (c) sequential histories of 6..16 steps mixing Compile, package-level and Expr-level RegisterVars/RegisterExts on three names and probes of every live Expr, judged against a sequential model (global map; each Expr = snapshot at Compile + its own registrations). " +
 			"Oracle: the statement's conversion table (parameter type x argument kind), the count/handler rules, and the sequential registry model. non-trivial = every case; distinct by (signature, handlers, arguments) / history",
 		Assumptions: []string{"argument positions in ArgTypeError are counted after the context item was prepended", "float-to-int conversion is judged only for integral in-range values (Go leaves the rest implementation-defined)", "package-level names are unique per history because the package registry cannot be reset; the concurrent variant is C06 configuration E"},
 		Plan: func(tier string, seed uint64) *fw.Plan {
